@@ -90,21 +90,22 @@ type EditFault struct {
 }
 
 type Op struct {
-	Kind     string             `json:"kind"` // track start stop switch pause create | print total json ... (read-only)
-	File     string             `json:"file"` // a.klg | b.klg | "" (default bookmark) | @name | missing.klg | adir
-	Args     OpArgs             `json:"args"`
-	Argv     []string           `json:"argv"`
-	ArgForm  int                `json:"arg_form,omitempty"` // spelling of the command line, see renderArgv
-	Tape     []int              `json:"tape,omitempty"`
-	MapTape  []int              `json:"map_tape,omitempty"`
-	MapOrder bool               `json:"map_order,omitempty"`
-	Plan     verifsim.FaultPlan `json:"plan"`
-	Steps    []TimeStep         `json:"steps,omitempty"`
-	GapS     int                `json:"gap_s,omitempty"`  // time passing before this command
-	JumpS    int                `json:"jump_s,omitempty"` // clock step before this command
-	Edit     *EditFault         `json:"edit,omitempty"`   // applied before this command
-	Cpus     int                `json:"cpus,omitempty"`
-	Stdin    string             `json:"stdin,omitempty"`
+	Kind      string             `json:"kind"` // track start stop switch pause create | print total json ... (read-only)
+	File      string             `json:"file"` // a.klg | b.klg | "" (default bookmark) | @name | missing.klg | adir
+	Args      OpArgs             `json:"args"`
+	Argv      []string           `json:"argv"`
+	ArgForm   int                `json:"arg_form,omitempty"` // spelling of the command line, see renderArgv
+	Tape      []int              `json:"tape,omitempty"`
+	MapTape   []int              `json:"map_tape,omitempty"`
+	MapOrder  bool               `json:"map_order,omitempty"`
+	Plan      verifsim.FaultPlan `json:"plan"`
+	Steps     []TimeStep         `json:"steps,omitempty"`
+	GapS      int                `json:"gap_s,omitempty"`      // time passing before this command
+	JumpS     int                `json:"jump_s,omitempty"`     // clock step before this command
+	Edit      *EditFault         `json:"edit,omitempty"`       // applied before this command
+	WriteEdit *EditFault         `json:"write_edit,omitempty"` // applied between this command's read of the target and its write
+	Cpus      int                `json:"cpus,omitempty"`
+	Stdin     string             `json:"stdin,omitempty"`
 }
 
 func (o *Op) mutating() bool { return mutatingCmd[o.Kind] }
